@@ -5,6 +5,7 @@ package loader
 // Contracts for the verification machinery in /verif (comment-only; see /verif/DESIGN.md).
 
 //@ func (*writingReader).Read
+//@   check the_first_read_emits_the_section_once [C15]: old(w.wo) != nil ==> w.wo == nil || err != nil
 //@   requires buffered [C15]: typeis(w.r, "*bytes.Buffer")
 //@   let vbytes := call[varint.ToUvarint#0]
 //@   call[varint.ToUvarint#0] assert section_length [C15]: arg0 == wrap_u64(wrap_u64(w.len) + len(w.cid))
@@ -22,6 +23,9 @@ package loader
 //@   closure[0]
 //@     let n0, c, cerr := call[cid.CidFromBytes#0]
 //@     call[maplookup#0] assert dedup_by_cid [C15]: key == c
+//@     let _, seen := call[maplookup#0]
+//@     call[dynamic#0] assert a_block_already_written_is_only_read [C15]: seen
+//@     call[dynamic#1] assert a_new_block_goes_through_the_tee [C15]: !seen
 //@   end
 
 //@ func CountingLinkSystem
